@@ -86,6 +86,7 @@ class SetUses:
     def __init__(self, pkg: Pkg):
         self.pkg = pkg
         self.trace = []
+        self.visiting = set()
 
     def note(self, n, what):
         self.trace.append(f"{what}@{getattr(n, 'lineno', '?')}")
@@ -150,6 +151,9 @@ class SetUses:
         f = call.func
         fname = f.id if isinstance(f, ast.Name) else f.attr if isinstance(f, ast.Attribute) else None
         cands = self.pkg.funcs.get(fname or "", [])
+        same = [c for c in cands if c[0] == rel]
+        if len(same) == 1:
+            cands = same
         if len(cands) != 1 or depth <= 0:
             self.note(call, f"arg-of-unresolved:{fname}")
             return "UOrdered"
@@ -167,7 +171,82 @@ class SetUses:
         if pname is None or pname not in params + [a.arg for a in fn.args.kwonlyargs]:
             self.note(call, f"arg-position-unresolved:{fname}")
             return "UOrdered"
-        return worst([self.expr_use(ld, r2, depth - 1) for ld in self.name_loads(fn, pname)])
+        key = (r2, fn.name, fn.lineno, pname)
+        if key in self.visiting:          # recursive call passing the parameter on: nothing new
+            return "UNone"
+        self.visiting.add(key)
+        try:
+            return worst([self.expr_use(ld, r2, depth - 1) for ld in self.name_loads(fn, pname)])
+        finally:
+            self.visiting.discard(key)
+
+    @staticmethod
+    def ancestors(n):
+        n = getattr(n, "_parent", None)
+        while n is not None:
+            yield n
+            n = getattr(n, "_parent", None)
+
+    def dict_of_sets(self, call, rel, depth):
+        """d.get(k, <set>) / d.setdefault(k, <set>): the set is (or stands in for) a value of dict d."""
+        uses = [self.expr_use(call, rel, depth)]
+        d = call.func.value
+        fn = self.pkg.enclosing(call, (ast.FunctionDef, ast.AsyncFunctionDef))
+        if call.func.attr == "setdefault":
+            if not isinstance(d, ast.Name) or fn is None:
+                self.note(call, "setdefault-on-unknown-dict")
+                return "UOrdered"
+            for ld in self.name_loads(fn, d.id):
+                q = getattr(ld, "_parent", None)
+                if isinstance(q, ast.Attribute) and q.attr in ("get", "setdefault", "pop") and isinstance(getattr(q, "_parent", None), ast.Call):
+                    if q._parent is not call:
+                        uses.append(self.expr_use(q._parent, rel, depth))
+                elif isinstance(q, ast.Subscript) and q.value is ld:
+                    uses.append(self.expr_use(q, rel, depth) if isinstance(q.ctx, ast.Load) else "UNone")
+                elif isinstance(q, ast.Compare):
+                    uses.append("UMember")
+                else:
+                    self.note(ld, "dict-of-sets-escapes")
+                    uses.append("UOrdered")
+        return worst(uses)
+
+    def for_body_use(self, loop, rel, depth):
+        """`for x in S: ...` is order-insensitive when the body is an existential test
+        (`if c: return <const>`) or only fills a dict keyed by x that is consumed as **kwargs."""
+        var = loop.target.id if isinstance(loop.target, ast.Name) else None
+        fn = self.pkg.enclosing(loop, (ast.FunctionDef, ast.AsyncFunctionDef))
+        if var is None or fn is None or loop.orelse:
+            return "UOrdered"
+        stmts = list(loop.body)
+        flat = []
+        for st in stmts:
+            if isinstance(st, ast.If) and not st.orelse:
+                flat.extend(st.body)
+            else:
+                flat.append(st)
+        if flat and all(isinstance(st, ast.Return) and isinstance(st.value, ast.Constant) for st in flat) \
+                and len({st.value.value for st in flat}) == 1:
+            return "UAnyAll"
+        dicts = set()
+        for st in flat:
+            if isinstance(st, ast.Assign) and len(st.targets) == 1 and isinstance(st.targets[0], ast.Subscript) \
+                    and isinstance(st.targets[0].value, ast.Name) and isinstance(st.targets[0].slice, ast.Name) \
+                    and st.targets[0].slice.id == var:
+                dicts.add(st.targets[0].value.id)
+            elif isinstance(st, ast.Assign) and len(st.targets) == 1 and isinstance(st.targets[0], ast.Name) and all(
+                    any(a is loop for a in self.ancestors(ld)) for ld in self.name_loads(fn, st.targets[0].id)):
+                continue                  # per-iteration temporary, not read outside the loop
+            else:
+                return "UOrdered"
+        for dn in dicts:
+            for ld in self.name_loads(fn, dn):
+                q = getattr(ld, "_parent", None)
+                if isinstance(q, ast.Subscript) and isinstance(q.ctx, ast.Store):
+                    continue
+                if isinstance(q, ast.keyword) and q.arg is None:      # f(**d): keyword order is irrelevant
+                    continue
+                return "UOrdered"
+        return "UMember" if dicts else "UOrdered"
 
     def expr_use(self, node, rel, depth=4):
         """Use of the set-valued expression `node`, looking at its parent."""
@@ -207,6 +286,10 @@ class SetUses:
             return "UOrdered"
         if isinstance(p, ast.Call):
             f = p.func
+            if f is node:
+                return "UNone"            # x.namelist(...) is a call of something else, not the set-valued property
+            if isinstance(f, ast.Attribute) and f.attr in ("get", "setdefault") and len(p.args) == 2 and p.args[1] is node:
+                return self.dict_of_sets(p, rel, depth)
             if isinstance(f, ast.Name) and (node in p.args):
                 if f.id in ("len", "bool"):
                     return "ULen"
@@ -260,8 +343,10 @@ class SetUses:
             self.note(p, "comprehension-over-set")
             return "UOrdered"
         if isinstance(p, ast.For) and p.iter is node:
-            self.note(p, "for-over-set")
-            return "UOrdered"
+            u = self.for_body_use(p, rel, depth)
+            if u == "UOrdered":
+                self.note(p, "for-over-set")
+            return u
         if isinstance(p, ast.arguments):
             # default value of a parameter: follow the parameter inside its function
             fn = getattr(p, "_parent", None)
@@ -397,7 +482,12 @@ def inventory_stream(pkg: Pkg):
                             names.add(t.id)
             for n in ast.walk(fn):
                 if isinstance(n, ast.Attribute) and isinstance(n.value, ast.Name) and n.value.id in names:
-                    out.append({"file": rel, "func": pkg.func_name(n), "line": n.lineno, "method": n.attr})
+                    meth = n.attr
+                    call = getattr(n, "_parent", None)
+                    outer = getattr(call, "_parent", None)
+                    if meth == "getbuffer" and isinstance(call, ast.Call) and isinstance(outer, ast.Attribute) and outer.attr == "nbytes":
+                        meth = "getbuffer().nbytes"       # size only; the writable view is dropped at once
+                    out.append({"file": rel, "func": pkg.func_name(n), "line": n.lineno, "method": meth})
                 if isinstance(n, ast.Call):
                     f = n.func
                     fname = f.attr if isinstance(f, ast.Attribute) else f.id if isinstance(f, ast.Name) else ""
@@ -448,8 +538,12 @@ def inventory_observer_writes(pkg: Pkg):
                     while isinstance(root, (ast.Attribute, ast.Subscript)):
                         root = root.value
                     if isinstance(root, ast.Name) and root.id in shared and isinstance(src, (ast.Attribute, ast.Name, ast.Subscript)):
-                        for t in ast.walk(tgt):
-                            if isinstance(t, ast.Name) and t.id not in shared:
+                        stack = [tgt]
+                        while stack:      # plain names / tuples of names only (a store into x[i] binds nothing)
+                            t = stack.pop()
+                            if isinstance(t, (ast.Tuple, ast.List)):
+                                stack.extend(t.elts)
+                            elif isinstance(t, ast.Name) and t.id not in shared:
                                 shared.add(t.id)
                                 changed = True
             for n in ast.walk(fn):
@@ -539,7 +633,7 @@ def gen_odt_case(rng, size):
         else:
             refs = [rng.randrange(len(heap)) for _ in range(rng.randint(0, 5))]
     return {"title": rng.choice(["", "", "Doc Title", "alpha"]), "paragraphs": paras, "tables": tables,
-            "heap": heap, "images": refs, "full_text": rnd_text(rng, words, 8)}
+            "heap": heap, "images": refs, "full_text": rng.choice(ws) + rnd_text(rng, words, 8) + rng.choice(ws)}
 
 
 def build_odt(case):
@@ -637,13 +731,16 @@ def observer_sequence_oracle(obj, seq, label):
             v = call_observer(obj, name)
         except Exception as e:  # noqa
             v = ("raises", type(e).__name__)
-        if name in first and first[name] != v:
-            bad.append((name, "returns a different value when called again"))
-        first.setdefault(name, v)
         d = digest_json(obj)
         if d != d0:
+            # this call wrote to the result: blame it, and start afresh (later differences are consequences)
             bad.append((name, "changes a later to_json()"))
             d0 = d
+            first = {}
+            continue
+        if name in first and first[name] != v:
+            bad.append((name, "returns a different value when called again (no write in between)"))
+        first.setdefault(name, v)
     return bad
 
 
@@ -739,6 +836,54 @@ def diff_paths(a, b):
     return sorted(set(out))
 
 
+def stream_oracle(ctx):
+    """serialization._bytesio_to_base64 and zip_bomb.validate_zip_bytesio on random streams / positions:
+    the theorem's right-hand side (whole content returned, content and position as found) evaluated on the
+    implementation, and the same cases evaluated by the Coq stream model."""
+    import base64
+    import zipfile
+    from sharepoint2text.parsing.extractors import serialization
+    from sharepoint2text.parsing.extractors.util import zip_bomb
+    rng = ctx.rng
+    cases = []
+    for i in range(ctx.n(60, 600)):
+        data = bytes(rng.randrange(256) for _ in range(rng.choice([0, 1, 2, 5, 17, 64])))
+        pos = rng.choice([0, 0, len(data), rng.randint(0, len(data) + 3)])
+        b = io.BytesIO(data)
+        b.seek(pos)
+        got = serialization._bytesio_to_base64(b)
+        ok = (base64.b64decode(got) == data and b.tell() == pos and b.getvalue() == data)
+        ctx.case(("b64", data, pos), len(data) > 0 and pos > 0, kind="stream:_bytesio_to_base64")
+        if not ok:
+            ctx.finding("stream-discipline:_bytesio_to_base64",
+                        f"_bytesio_to_base64 on {len(data)} bytes at position {pos}: returned whole content="
+                        f"{base64.b64decode(got) == data}, position after={b.tell()}, content kept={b.getvalue() == data}",
+                        {"data": data, "position": pos})
+        cases.append(f"(mkStream {coq_list([str(x) for x in data])}%N ({pos})%Z, {coq_list([str(x) for x in base64.b64decode(got)])}%N, ({b.tell()})%Z)")
+    pre = "From Coq Require Import ZArith List.\nFrom S2T Require Import Lib.PyStr C06.Lib C06.Model C06.Corr.\nImport ListNotations.\n"
+    ok, failing, log = coq_eval_shards(ctx, "stream", pre, "corr_stream", cases, shard=300, ty="stream * list N * Z")
+    ctx.obligation("correspondence:_bytesio_to_base64==stream model", ok and not failing, f"{len(failing)} disagreements {log[:400]}")
+    ctx.traces += len(cases)
+    # validate_zip_bytesio: valid zip, garbage (raises), at several positions
+    zb = io.BytesIO()
+    with zipfile.ZipFile(zb, "w") as z:
+        z.writestr("a.txt", "hello")
+    for data in (zb.getvalue(), b"not a zip at all", b"", zb.getvalue()[:30]):
+        for pos in (0, 3, len(data), len(data) + 2):
+            b = io.BytesIO(data)
+            b.seek(pos)
+            try:
+                zip_bomb.validate_zip_bytesio(b, source="c06")
+                outcome = "ok"
+            except Exception as e:  # noqa
+                outcome = type(e).__name__
+            ctx.case(("vz", data, pos, outcome), True, kind="stream:validate_zip_bytesio:" + outcome)
+            if b.tell() != pos or b.getvalue() != data:
+                ctx.finding("stream-discipline:validate_zip_bytesio",
+                            f"validate_zip_bytesio ({outcome}) left position {b.tell()} (was {pos}) / content kept={b.getvalue() == data}",
+                            {"data": data, "position": pos, "outcome": outcome})
+
+
 # =========================================================================================== run
 def run(ctx):
     import logging
@@ -760,6 +905,14 @@ def run(ctx):
     ctx.assumptions += ["CPython 3.12 str.isspace set (re-derived from the interpreter on every run)",
                         "libraries given a stream opened for reading perform no write on it (checked by getvalue() on fixtures)"]
 
+    import time as _time
+    marks = [("start", _time.time())]
+    ctx.extra["phase_s"] = {}
+
+    def mark(name):
+        ctx.extra["phase_s"][name] = round(_time.time() - marks[-1][1], 1)
+        marks.append((name, _time.time()))
+
     # ---- X: inventories
     pkg = Pkg(REPO)
     sets, nd, stream, modes, writes = gen_sites(ctx, pkg)
@@ -774,16 +927,20 @@ def run(ctx):
     ctx.obligation("interpreter-whitespace-set == C06.Lib.py_space",
                    [c for c in range(0x110000) if chr(c).isspace()] == PY_SPACE, "str.isspace set differs from the model")
 
+    mark("inventories")
     # ---- proofs
     ctx.prove("C06/Props.v", ["C06/Proofs.vo"], expected=[
         "C06_pure_observers_frame", "C06_iterate_units_mutates_refuted", "C06_observers_idempotent_partial",
         "C06_observers_idempotent_fixed", "C06_observer_values_fixed", "C06_seed_independent_refuted",
-        "C06_seed_independent_fixed", "C06_neutral_uses_seed_independent", "C06_input_untouched_serialize",
+        "C06_seed_independent_fixed", "C06_neutral_uses_seed_independent", "C06_ordered_use_refuted",
+        "C06_input_untouched_serialize",
         "C06_input_untouched_validate_zip", "C06_readonly_ops_keep_buffer"])
     ctx.prove("C06/Inst.v", ["Gen/C06Sites.vo", "C06/Corr.vo"], expected=[
-        "C06_set_sites_neutral", "C06_nd_sites_no_result_sink", "C06_input_stream_readonly",
-        "C06_observers_do_not_store"])
+        "C06_set_sites_neutral", "C06_nd_sites_no_result_sink"])
+    ctx.prove("C06/InstPure.v", ["Gen/C06Sites.vo"], expected=["C06_input_stream_readonly"])
+    ctx.prove("C06/InstObs.v", ["Gen/C06Sites.vo"], expected=["C06_observers_do_not_store"])
 
+    mark("proofs")
     # ---- D1: OdtContent.iterate_units vs the heap model
     rng = ctx.rng
     ncases = ctx.n(400, 4000)
@@ -812,6 +969,7 @@ def run(ctx):
                    okf and not fail_f, detail + logf[:500])
     ctx.disagreements += len(fail_f)
 
+    mark("odt-correspondence")
     # ---- D2: observer sequences on generated ODT objects and on every fixture result
     from sharepoint2text.parsing.router import get_extractor, is_supported_file
     resources = REPO / "sharepoint2text" / "tests" / "resources"
@@ -844,6 +1002,7 @@ def run(ctx):
                                 {"fixture": rel, "sequence": seq, "observer": name, "kind": kind})
                 ctx.case(("seq", rel, tuple(seq)), True, kind="observer-seq:" + type(o).__name__)
 
+    mark("observer-sequences")
     # ---- D3: same input in-process twice, fresh processes, >= 8 hash seeds
     seeds = [0, 0, 1, 2, 3, 7, 42, 1234, 99999, 4294967295][: ctx.n(10, 10)]
     if ctx.tier == "thorough":
@@ -878,6 +1037,11 @@ def run(ctx):
             ctx.case(("seeds", rel, r0["digest"]), len(results) >= 2, kind="fixture-x-seeds:" + (r0["types"][0] if r0["types"] else "raises"))
         ctx.extra["fixtures"] = len(base)
         ctx.extra["hash_seeds"] = [s for s, _ in results]
+
+    mark("seed-workers")
+    # ---- D4: stream position/content discipline of the two modelled helpers (tie of Part C)
+    stream_oracle(ctx)
+    mark("stream")
 
     # ---- inventory findings reach the implementation: ORDERED set sites / RESULT sinks are reported with their location
     for x in sets:
